@@ -461,6 +461,19 @@ class StmtMixin:
             base.d[idx] = v
             return [(st, NEXT)]
         k = ops.kind_of(base)
+        if isinstance(k, KOpt) and isinstance(k.inner, KDict):
+            # d[k] = v on an optional dict: None does not support item assignment
+            tt, ff = self.fork(st, z3.Not(base.t[0]))
+            outs = []
+            if ff is not None:
+                outs.append(self.exc_out(ff, ExcVal('TypeError')))
+            if tt is not None:
+                inner = SVal(k.inner, base.t[1:])
+                v2 = self.coerce_to(tt, v, k.inner.val)
+                new = ops.dict_set(inner, idx, v2)
+                self.fold_update(tt, fr, inner, new, idx, v2)
+                outs += self.assign(base_expr, SVal(k, [z3.BoolVal(False)] + list(new.t)), tt, fr)
+            return outs
         if isinstance(k, KDict):
             v2 = self.coerce_to(st, v, k.val)
             new = ops.dict_set(base, idx, v2)
@@ -580,7 +593,8 @@ class StmtMixin:
                    'ValueError': 'Exception', 'TypeError': 'Exception', 'OSError': 'Exception',
                    'IOError': 'OSError', 'AttributeError': 'Exception', 'AssertionError': 'Exception',
                    'ZeroDivisionError': 'ArithmeticError', 'ArithmeticError': 'Exception',
-                   'StopIteration': 'Exception', 'RuntimeError': 'Exception'}
+                   'StopIteration': 'Exception', 'RuntimeError': 'Exception',
+                   'FileNotFoundError': 'OSError', 'FileExistsError': 'OSError'}
 
     def exc_isa(self, etype, name):
         cur = etype
@@ -691,10 +705,12 @@ class StmtMixin:
             starts = [probe]
             if bind is not None:
                 starts = [s2 for s2, oc in bind(probe) if oc is NEXT]
+            sorts = {}
             for s2, oc in [x for p0 in starts for x in self.ex(body_stmts, p0, fr)]:
                 for k, arr in s2.heap.items():
                     if k not in before or not before[k].eq(arr):
                         changed.add(k)
+                        sorts[k] = arr.sort().range()
                 # locals changed through subscript/attribute stores or mutator calls (found dynamically)
                 for n in indirect:
                     if n in st.env and n in s2.env and not same_value(st.env[n], s2.env[n]):
@@ -703,7 +719,7 @@ class StmtMixin:
             self.dry -= 1
             del self.ax_buffer[:]
         for key in changed:
-            cur = self.H.get(st.heap, key, None)
+            cur = self.H.get(st.heap, key, sorts.get(key))
             new = z3.Const(fresh_name('Hl_%s_%d' % (key[0].replace('.', '_').replace('$', ''), key[1])), cur.sort())
             if key[0] == '$alive':
                 r = z3.Int(fresh_name('r'))   # allocation only grows
